@@ -215,7 +215,11 @@ def check(case, ctx):
         for b in ran:
             runs[b] += 1
         if lab.ok != r.ok or (r.ok and lab.value != r.value):
-            raise Violation("value", f"step {i} options={o}: labrea {lab!r} but reference {r!r}")
+            # after a late attachment an entry stored before it may still be served (no effect runs on a cache hit), so an
+            # effect that cannot be evaluated fails only the evaluations that are actually computed
+            r_before = ref_early.run(o) if (late_def and attach_at is not None and i >= attach_at) else None
+            if r_before is None or lab.ok != r_before.ok or (r_before.ok and lab.value != r_before.value):
+                raise Violation("value", f"step {i} options={o}: labrea {lab!r} but reference {r!r}")
         # (i) repeat-class steps
         step = case["steps"][i]
         if kinds[i] == "repeat" and i > 0:
